@@ -24,8 +24,9 @@ ASSUME = ["both members use KNOBS -convergence_tolerance 1e-12", "dissolved O2 p
 
 ELS = {"Na": ("Na", 1), "K": ("K", 1), "Ca": ("Ca", 2), "Mg": ("Mg", 2), "Cl": ("Cl", -1), "S(6)": ("SO4", -2), "C(4)": ("HCO3", -1), "Sr": ("Sr", 2), "Br": ("Br", -1), "Li": ("Li", 1)}
 SEL = ("SELECTED_OUTPUT 1\n -reset false\n -high_precision true\n -pH true\n -ionic_strength true\n -totals Na K Ca Mg Cl S(6) C(4) Sr Br Li\n -molalities Na+ Cl- Ca+2 HCO3- CaSO4 OH- NaX CaX2 Hfo_wOH Hfo_wOCa+\n"
-       " -saturation_indices Calcite Gypsum Halite CO2(g) Celestite\n -equilibrium_phases Calcite Gypsum Celestite\n -gases CO2(g) N2(g)\n -kinetic_reactants first_rate\n")
-EXTENSIVE_PREFIX = ("Calcite", "d_Calcite", "Gypsum", "d_Gypsum", "Celestite", "d_Celestite", "g_", "k_", "dk_", "volume")
+       " -saturation_indices Calcite Gypsum Halite CO2(g) Celestite\n -equilibrium_phases Calcite Gypsum Celestite\n -gases CO2(g) N2(g)\n -kinetic_reactants first_rate\n"
+       "USER_PUNCH 1\n -headings rho soln_vol sc\n -start\n 10 PUNCH RHO, SOLN_VOL, SC\n -end\n")      # density and conductance are intensive, the solution volume scales with the water
+EXTENSIVE_PREFIX = ("Calcite", "d_Calcite", "Gypsum", "d_Gypsum", "Celestite", "d_Celestite", "g_", "k_", "dk_", "volume", "soln_vol")
 KNOBS = "KNOBS\n -convergence_tolerance 1e-12\n -iterations 300\n"
 
 
